@@ -215,8 +215,7 @@ def tlc(module, cfg, name=None, workers=None, timeout=600, stop_after=None, extr
         jopts.append("-Dtlc2.TLC.stopAfter=%d" % stop_after)
     if depth_first:
         jopts.append("-Dtlc2.tool.queue.IStateQueue=StateDeque")
-    if heap:
-        jopts.append("-Xmx%s" % heap)
+    jopts.append("-Xmx%s" % (heap or os.environ.get("VERIF_TLC_HEAP", "10g")))
     jopts.append("-Xss64m")
     env["JAVA_TOOL_OPTIONS"] = " ".join(jopts)
     cmd = ["tlc", "-workers", str(workers or min(NCPU, 8)), "-metadir", os.path.join(d, "md"),
